@@ -194,3 +194,33 @@ func VerifHarness_C12_close_and_write_errors() {
 	vAssert(vLocksHeld() == 0, "C12.no_lock_left_held")
 	vReach("end")
 }
+
+// Fire-and-forget transactions (ignoreResult): no waiter, but the same timetable, and a failure
+// (all transmissions lost or a write error) still removes the entry.
+//
+//verif:props=C12 replay=model unwind=20 bounds="one transaction started with ignoreResult; retransmission writes may fail; all 7 timer firings"
+func VerifHarness_C12_ignore_result() {
+	conn := &allocation.VPacketConn{Name: "client"}
+	c := vNewClient(conn, 200*time.Millisecond)
+	msg := vRequestMsg()
+	to := allocation.VUDPAddr4()
+	_, err := c.PerformTransaction(msg, to, true)
+	vAssert(err == nil, "C12.fire_and_forget_returns_at_once")
+	vAssert(c.trMap.Size() == 1, "C12.transaction_registered")
+	var tr *client.Transaction
+	for _, t := range vTrEntries(c) {
+		tr = t
+	}
+	vAssume(tr != nil)
+	conn.Failing = true // from now on a retransmission write may fail
+	for k := 1; k <= 7; k++ {
+		if c.trMap.Size() == 1 {
+			vFire(tr.VTimer())
+		}
+	}
+	vAssert(c.trMap.Size() == 0, "C12.failed_fire_and_forget_transaction_leaves_the_table")
+	vAssert(len(conn.Writes) <= 7, "C12.sent_at_most_seven_times")
+	vAssert(vLocksHeld() == 0, "C12.no_lock_left_held")
+	vAssert(vBlockedThreads() == 0, "C12.never_hangs")
+	vReach("end")
+}
